@@ -88,6 +88,19 @@ def count_helper(facts, fn):
 from ..rulelib import before as _before
 
 
+def _early_return(fn, t, anchor, lens, R=None):
+    """a `return` before `anchor` (the counting construct) that is not the report of a length mismatch (an Err value under a
+    comparison of the two lengths), or None: a shortcut placed before the length check answers for inputs of different lengths"""
+    for x in user_nodes(fn):
+        if x["k"] == "Ret" and _before(fn, x, anchor) and not hirq.from_expansion(x):
+            val = nf.nf(x["e"], True, res=R) if "e" in x else ""
+            cf = nf.control_facts(t, x, res=R)
+            about_len = any(f_[0] == "cmp" and {_resolve(fn, f_[1]), _resolve(fn, f_[3])} == lens for f_ in cf)
+            if not (re.match(r"^(std::prelude::v1::|std::result::Result::)?Err\(", val) and about_len):
+                return (x, val, cf)
+    return None
+
+
 def est_via_helper(ctx, facts, fid):
     """the estimator delegates the counting to an in-crate helper: F2/F3 are checked in the helper, F1/F4 in the caller"""
     fn = facts.fn(fid)
@@ -106,6 +119,8 @@ def est_via_helper(ctx, facts, fid):
     lens = {"%s.len()" % a, "%s.len()" % b}
     fs = nf.early_facts(t, c)
     if not any(f[0] == "cmp" and f[2] == "==" and {_resolve(fn, f[1]), _resolve(fn, f[3])} == lens for f in fs):
+        return False
+    if _early_return(fn, t, c, lens):
         return False
     body = fn["hir"]
     rets = [n["e"] for n in user_nodes(fn) if n["k"] == "Ret" and "e" in n and _before(fn, c, n)] + ([body["expr"]] if "expr" in body else [])
@@ -187,6 +202,11 @@ def est_via_fold(ctx, facts, fid):
     if not any(fc[0] == "cmp" and fc[2] == "==" and {_resolve(fn, fc[1]), _resolve(fn, fc[3])} == lens for fc in fs):
         ctx.violation("EST", fid, "F1 length check", hirq.loc(c), "no length comparison of the two sketches that panics or returns Err precedes the fold (facts: %s)" % fs[:3])
         return True
+    er = _early_return(fn, t, c, lens)
+    if er:
+        ctx.violation("EST", fid, "F1 early return", hirq.loc(er[0]),
+                      "`return %s` when %s precedes the count: only the report of a length mismatch may leave the estimator early" % (er[1][:40], er[2][:2]))
+        return True
     bodyb = fn["hir"]
     rets = [n["e"] for n in user_nodes(fn) if n["k"] == "Ret" and "e" in n and _before(fn, c, n)] + ([bodyb["expr"]] if "expr" in bodyb else [])
     if len(rets) != 1:
@@ -251,6 +271,11 @@ def est_via_zip(ctx, facts, fid):
     fs = nf.early_facts(t, c)
     if not any(fc[0] == "cmp" and fc[2] == "==" and {_resolve(fn, fc[1]), _resolve(fn, fc[3])} == lens for fc in fs):
         ctx.violation("EST", fid, "F1 length check", hirq.loc(c), "zip() silently stops at the shorter sketch and no length comparison that panics or returns Err precedes it (facts: %s)" % fs[:3])
+        return True
+    er = _early_return(fn, t, c, lens)
+    if er:
+        ctx.violation("EST", fid, "F1 early return", hirq.loc(er[0]),
+                      "`return %s` when %s precedes the count: only the report of a length mismatch may leave the estimator early" % (er[1][:40], er[2][:2]))
         return True
     bodyb = fn["hir"]
     rets = [n["e"] for n in user_nodes(fn) if n["k"] == "Ret" and "e" in n and _before(fn, c, n)] + ([bodyb["expr"]] if "expr" in bodyb else [])
@@ -346,6 +371,13 @@ def est_template(ctx, facts, fid):
                 okf1 = True
     if not okf1:
         ctx.violation("EST", fid, "F1 length check", hirq.loc(fl["loop"]), "no length comparison of the two sketches that panics or returns Err precedes the loop (facts established before the loop: %s): a prefix would be compared" % facts_before[:3])
+        return None
+    # F1': nothing but the length report leaves the function before the loop — a shortcut `if <something> { return 1. }` placed
+    # before the length check answers for inputs whose lengths differ (e.g. two views of one buffer)
+    er = _early_return(fn, t, fl["match"], lens, R)
+    if er:
+        ctx.violation("EST", fid, "F1 early return", hirq.loc(er[0]),
+                      "`return %s` when %s precedes the counting loop: only the report of a length mismatch may leave the estimator early" % (er[1][:40], er[2][:2]))
         return None
     # the counter starts at 0 and is not otherwise written
     cdefs = [nf.nf(e) for e in def_exprs(fn, cnt)]
